@@ -39,6 +39,36 @@ theorem points_to_dibits_eq (ps : List Nat) :
     points_to_dibits (ps.map (fun x : Nat => (x : Int))) = Transl.Trellis.ofR id (Trellis.pointsToDibits ps) :=
   Transl.Trellis.points_to_dibits_eq ps
 
+/-- `tribits_to_points`, every array of naturals: the model's `tribitsToPoints`, `IndexError` of the table read included -/
+theorem tribits_to_points_eq (ts : List Nat) :
+    tribits_to_points (ts.map (fun x : Nat => (x : Int)))
+      = Transl.Trellis.ofR (List.map (fun x : Nat => (x : Int))) (Trellis.tribitsToPoints ts) :=
+  Transl.Trellis.tribits_to_points_eq ts
+
+/-- `interleave`, every array whose items fit `array('b')` (`isChars`: what an array of dibits can hold): the model's
+`interleave`, `IndexError` for a short array included -/
+theorem interleave_eq (d : List Int) (hd : Transl.Trellis.isChars d) :
+    Transl.Trellis.interleave d = Transl.Trellis.ofR id (Trellis.interleave d) :=
+  Transl.Trellis.interleave_eq d hd
+
+/-- `deinterleave`, likewise (`IndexError`s of a short input / a matrix entry beyond the output included) -/
+theorem deinterleave_eq (d : List Int) (hd : Transl.Trellis.isChars d) :
+    Transl.Trellis.deinterleave d = Transl.Trellis.ofR id (Trellis.deinterleave d) :=
+  Transl.Trellis.deinterleave_eq d hd
+
+/-- `dibits_to_bits`, every array: the model's `dibitsToBits`, `KeyError` included -/
+theorem dibits_to_bits_eq (ds : List Int) : dibits_to_bits ds = Transl.Trellis.ofR id (Trellis.dibitsToBits ds) :=
+  Transl.Trellis.dibits_to_bits_eq ds
+
+/-- `encode(bitarray)`, EVERY bit string (`AssertionError` below 144 bits, only the first 144 bits are used): the model's
+`encode` -/
+theorem encode_eq (b : Bits) : Transl.Trellis.encode b = Transl.Trellis.ofR id (Trellis.encode b) :=
+  Transl.Trellis.encode_eq b
+
+/-- `encode(bytes)`, every byte string: the model's `encodeBytes` -/
+theorem encode_bytes_eq (d : Bytes) : Transl.Trellis.encode_bytes d = Transl.Trellis.ofR id (Trellis.encodeBytes d) :=
+  Transl.Trellis.encode_bytes_eq d
+
 /-! ## non-vacuity / pin: a random 144-bit block, its code word computed with the real `Trellis34.encode`, the round trip,
 and a single inverted bit of the code word that the translated `decode` rejects like the real one (`AssertionError`) -/
 
